@@ -27,8 +27,9 @@ WORKER = "fn_rpc.py"
 
 COLTYPES = ["Any", "Text", "Numeric", "Int", "Bool", "Date", "DateTime:America/New_York", "Choice", "ChoiceList",
             "Ref:W", "RefList:W", "Attachments"]
-HOSTILE = ("apply_hostile", "fetch_hostile", "apply_ext_hostile")
-GUARANTEED = ("apply_ok", "apply_ext_data", "apply_ext_nested", "fetch_ok", "fetch_meta") + HOSTILE
+HOSTILE = ("apply_hostile", "apply_wire", "fetch_hostile", "apply_ext_hostile")
+GUARANTEED = ("apply_ok", "apply_ext_data", "apply_ext_nested", "fetch_ok", "fetch_meta",
+              "apply_hostile", "fetch_hostile", "apply_ext_hostile")
 UNMARSHALLABLE = "ValueError unmarshallable object"
 TOKEN_CAP = 1500
 
@@ -93,7 +94,7 @@ def _m_str_subclass(v):
 
 
 # ['D', ts, zone] with an integral ts in the last 14 hours before 10000-01-01T00:00:00Z (253402300800)
-_DT_END = re.compile(r"\[sD,#(2534022[0-9]{5}),s[A-Za-z0-9_/+-]+\]")
+_DT_END = re.compile(r"\[sD,#(25340[0-9]{7}),s[A-Za-z0-9_/+-]+\]")
 
 
 def _dt_end(m):
